@@ -67,18 +67,13 @@ def enumerate_exec(rep, name, consts, wd, invariants, sim=None):
         res = core.run_tlc('ExecEnum', exec_cfg(consts, invariants), wd, timeout=3000)
         rep.add_model_check('ExecEnum[%s] %s' % (name, ' '.join(invariants)), res)
     out = []
-    seen = set()
-    for line in res['out'].splitlines():
+    for line in sorted(set(res['out'].splitlines())):       # sorted: reproducible seeded sampling
         if line.startswith('<<"PROG", '):
-            if line in seen:
-                continue
-            seen.add(line)
             s = line[len('<<"PROG", '):].rstrip()
             # "<json string>", nv, accept, nq>>
             body, nv, acc, nq = s[:-2].rsplit(', ', 3)
             p = json.loads(json.loads(body))
-            if p['natives']:
-                p['natives'] = passes.exact_natives()
+            p['natives'] = passes.natives_of_tag(p['natives'])
             out.append({'prog': p, 'nv': int(nv), 'accept': acc == 'TRUE', 'nq': int(nq)})
     if not out:
         raise core.MachineryError('ExecEnum[%s] emitted nothing\n%s' % (name, res['out'][-1500:]))
@@ -90,15 +85,14 @@ def enumerate_explicit(rep, name, consts, wd):
     res = core.run_tlc('ExecEnum', exec_cfg(consts, ('ExplicitSameTree',)).replace('INVARIANT EmitX', 'INVARIANT EmitExplicit'), wd, timeout=3000)
     rep.add_model_check('ExecEnum[%s] ExplicitSameTree' % name, res)
     out = []
-    for line in res['out'].splitlines():
+    for line in sorted(set(res['out'].splitlines())):
         if line.startswith('<<"XPROG", '):
             body = line[len('<<"XPROG", '):].rstrip()[:-2]
             a, b = body.split('", "', 1)
             pa = json.loads(json.loads(a + '"'))
             pb = json.loads(json.loads('"' + b))
             for p in (pa, pb):
-                if p['natives']:
-                    p['natives'] = passes.exact_natives()
+                p['natives'] = passes.natives_of_tag(p['natives'])
             out.append((pa, pb))
     if not out:
         raise core.MachineryError('ExecEnum[%s] emitted nothing\n%s' % (name, res['out'][-1500:]))
